@@ -76,6 +76,7 @@ def opTok (s : String) : Option Op :=
     | _, _, _ => none
   | ["c2", k] => (variantTok k).map .mkC2Http
   | ["cl", b] => (boolTok b).map .clientDryRun
+  | ["cl", b, _bid] => (boolTok b).map .clientDryRun      -- third field: which (valid) beacon id the harness passes
   | ["pf"] => some .mkProfile
   | ["tr", d, w] =>
     match d.toNat?, whichTok w with
